@@ -115,8 +115,14 @@ INT_VALUES = [1, 2, 3, 5, 7, 0, 4, 9, 12, 6, 10, 8]
 FLOAT_VALUES = [1.0, 2.0, 3.0, 0.5, 7.0, 0.0, 4.0, 2.5, 12.0, 6.0, 1.5, 8.0]
 
 
-def eval_tree(tree, env):
-    it = sem.Interp(Module())
+def _same_at_both_precisions(a, b):
+    if isinstance(a, int) and isinstance(b, int):
+        return a == b
+    return abs(a - b) <= 1e-6 * max(1.0, abs(a), abs(b))
+
+
+def eval_tree(tree, env, f32=False):
+    it = sem.Interp(Module(), f32_mode=f32)
     try:
         return ("v", it.ev(tree, dict(env)))
     except (sem.OutOfDomain, sem.RefTimeout):
@@ -272,6 +278,13 @@ def wasm_value_probe(R, case, module, tree, text, names, vectors, kind):
             exp = eval_tree(tree, env)
             if exp[0] != "v":
                 continue
+            if kind != "int":
+                # WebAssembly computes in single precision: a case is judged only when the source evaluated at single and at
+                # double precision gives the same answer (comparisons of rounded quotients flip otherwise)
+                exp32 = eval_tree(tree, env, f32=True)
+                if exp32[0] != "v" or not _same_at_both_precisions(exp[1], exp32[1]):
+                    R.count("wasm_probe_precision_sensitive_skipped")
+                    continue
             st, got = wasmrun.run_export(e, "f", [env[n] for n in names])
             R.evaluations += 1
             R.count("wasm_probe_runs")
